@@ -202,9 +202,19 @@ def many_rounds_then_restart():
     return s.steps
 
 
+def lock_survives_restart():
+    """locked_without_proposal, then the locked node - which has meanwhile signed its round-1 prevote - is killed and started
+    again: WAL replay re-runs the handlers that took the lock, while the signer refuses to sign the old precommit anew; the
+    lock must be back all the same (compared after the restart)."""
+    s = S()
+    s.steps = locked_without_proposal()
+    s.a('Crash', 1).a('Restart', 1).all_internal(1)
+    return s.steps
+
+
 # per-scenario overrides of the scenario configuration and pseudo steps appended after TLC has followed the schedule
-CFG = {'many_rounds_then_restart': {'max_round': 4}}
+CFG = {'many_rounds_then_restart': {'max_round': 4}, 'lock_survives_restart': {'crashes': 1, 'crash_set': [1]}}
 APPEND = {'many_rounds_then_restart': [['RealStartProbe', 2, 'realticker'], ['RealStartProbe', 1, 'realticker']]}
 
-ALL = {'many_rounds_then_restart': many_rounds_then_restart, 'lock_unlock': lock_unlock, 'relock_and_pol_proposal': relock_and_pol_proposal,
+ALL = {'many_rounds_then_restart': many_rounds_then_restart, 'lock_survives_restart': lock_survives_restart, 'lock_unlock': lock_unlock, 'relock_and_pol_proposal': relock_and_pol_proposal,
        'locked_without_proposal': locked_without_proposal, 'stale_polka_must_not_unlock': stale_polka_must_not_unlock}
